@@ -1,4 +1,19 @@
-import DDV.Gen.Lemmas.Tree
+/-
+  C14 — Name and reference validation accepts exactly resolvable, collision-free input.
+  (work in progress: pass-order obligation; accept-iff theorems follow)
+-/
+import DDV.Extracted.Tables
+import DDV.Gen.Pipeline
+
 namespace DDV.Props.C14
-theorem placeholder : True := trivial
+open DDV.Gen
+
+/-- The statement order of `run_passes` in the source is the order `runPasses` composes the passes
+    in (so e.g. refs are validated before anything dereferences them). -/
+theorem pass_order_matches_model : DDV.Extracted.passOrder = DDV.Gen.passOrder := by decide
+
+theorem refs_validated_before_reset_values :
+    (DDV.Extracted.passOrder.idxOf "refs_validated") < (DDV.Extracted.passOrder.idxOf "reset_values_converted") := by
+  decide
+
 end DDV.Props.C14
